@@ -1,2 +1,38 @@
-From Furax Require Import Lemmas.Normal.
-Example placeholder_c07 : True. Proof. exact I. Qed.
+(* C07 - reduction reaches the documented normal form in every context.
+   Statements only; proofs are `exact <lemma>` (Lemmas/Normal.v). *)
+From Coq Require Import List Arith.
+From Furax Require Import Base.Pytree Model.Op Model.Algebra Lemmas.Normal.
+Import ListNotations.
+
+Section C07.
+  Variable K : Type.
+  Variable keqb : K -> K -> bool.
+  Variables (k1 : K) (kmul : K -> K -> K).
+  Variable rr : op K -> result (op K).     (* reduce() used by the block rules *)
+  Variable order : list rule_id.           (* any registry order *)
+
+  (* In the result of the n-ary reduction rule no adjacent pair is reducible by any registered rule,
+     at most one scalar factor remains, and no identity factor remains (the result is a lone
+     identity only when everything cancelled). *)
+  Theorem reduced_chain_is_normal : forall fuel ops res,
+    algebraic_reduction keqb k1 kmul rr fuel order ops = Ok res -> 2 <= List.length ops ->
+    normal K keqb kmul rr order res /\ nhom K res <= 1 /\ (no_ident K res \/ exists s, res = [Ident fresh s]).
+  Proof. exact (algebraic_normal_l K keqb k1 kmul rr order). Qed.
+
+  (* whatever stands left and right of it, a pair on which a rule fires never survives *)
+  Theorem pattern_never_survives : forall fuel ops res l r new j,
+    algebraic_reduction keqb k1 kmul rr fuel order ops = Ok res -> 2 <= List.length ops ->
+    fires keqb kmul rr order l r = Ok (Some new) ->
+    ~ (nth_error res j = Some l /\ nth_error res (S j) = Some r).
+  Proof. exact (pattern_never_survives_l K keqb k1 kmul rr order). Qed.
+
+  (* the loop invariant of the scan: pairs left of `index` are irreducible *)
+  Theorem scan_invariant : forall fuel ops index res,
+    scan keqb k1 kmul rr fuel order ops index = Ok res ->
+    (forall j, j < index -> irreducible_at K keqb kmul rr order ops j) ->
+    normal K keqb kmul rr order res.
+  Proof. exact (scan_normal K keqb k1 kmul rr order). Qed.
+End C07.
+Print Assumptions reduced_chain_is_normal.
+Print Assumptions pattern_never_survives.
+Print Assumptions scan_invariant.
